@@ -8,7 +8,7 @@ def instances(tier):
     out = []
     for nl, ns, dt in ([(0, 1, 0), (1, 0, 0), (1, 1, 1), (2, 0, 0), (2, 1, 0), (2, 1, 1), (3, 0, 0)] if q else [(0, 1, 0), (0, 2, 1), (1, 0, 0), (1, 1, 1), (1, 2, 0), (2, 0, 0), (2, 1, 0), (2, 1, 1), (2, 2, 0), (3, 0, 0), (3, 1, 1), (4, 0, 0)]):
         out.append({'entry': 'h_ini', 'params': [nl, ns, dt], 'bound': 'every INI text of %d line(s) from 9 templates (sections, entries, indented, comments, blank, junk), LF/CRLF, with/without final newline; %d set() call(s) on 4 names with 1-2 symbolic printable value bytes; written %s' % (nl, ns, 'on destruction' if dt else 'explicitly')})
-    for p in ([1, 2, 2, 0], [1, 3, 2, 1], [2, 2, 2, 1], [2, 2, 1, 3]) if q else ([1, 2, 2, 0], [1, 3, 2, 0], [1, 3, 2, 1], [2, 2, 2, 0], [2, 2, 2, 1], [2, 2, 2, 2], [3, 2, 2, 3]):
+    for p in ([1, 2, 2, 0], [1, 3, 2, 1], [2, 2, 2, 1], [2, 2, 1, 3], [3, 1, 2, 0], [3, 1, 1, 1]) if q else ([1, 2, 2, 0], [1, 3, 2, 0], [1, 3, 2, 1], [2, 2, 2, 0], [2, 2, 2, 1], [2, 2, 2, 2], [3, 2, 2, 3], [3, 1, 2, 0], [3, 1, 2, 1], [4, 1, 2, 1]):
         out.append({'entry': 'h_csv', 'params': p, 'bound': 'CSV table %dx%d with %d symbolic cell(s) starting at cell %d: each a number, an empty string or a 1-2 character string over {a , ; " \' space}' % tuple(p)})
     return out
 
